@@ -270,6 +270,7 @@ type jLedResult struct {
 	Panic     string     `json:"panic"`
 	PanicAt   int        `json:"panic_at"`
 	Hang      bool       `json:"hang"`
+	NoStamp   bool       `json:"no_stamp"` // frames were selected by settling, not by the stamp
 	Err       string     `json:"err"`
 	SrvErrs   []string   `json:"server_errors"`
 }
@@ -286,6 +287,8 @@ type ledRig struct {
 	base  openrgb.Color
 	gen   int
 	nLeds int // without the stamp LED
+	// noStamp: the loop does not show new stamps (it caches the static part of the frame): frames are selected by settling
+	noStamp bool
 }
 
 func (r *ledRig) stampColor() int {
@@ -293,24 +296,70 @@ func (r *ledRig) stampColor() int {
 	return int(r.base.Red)<<16 | int(r.base.Green)<<8 | int(b)
 }
 
-// freshFrame: first frame computed after this call.
+// freshFrame: a frame computed after this call.
+// Primary method (exact): the stamp described at the top of the file.  It presupposes that the loop reads the configured
+// colours anew for every frame.  A loop that caches the static part of the frame (legitimate: the configuration never changes
+// in production) never shows a new stamp; then - after one short timeout - the rig stops stamping for the rest of this
+// device's run and selects frames by settling instead: the first frame that arrived at least 12 ms (more than one refresh
+// period) after the call and is identical to the next such frame.
 func (r *ledRig) freshFrame(timeout time.Duration) ([]int, float64) {
 	t0 := time.Now()
-	r.gen++
-	want := r.stampColor()
-	// frames received before the stamp is set are stale; later ones are told apart by the stamp (a stale frame still
-	// in flight carries the previous generation)
-	from, _, _, _ := r.srv.snapshot()
-	r.d.eventProcessMutex.Lock()
-	r.d.config.OpenRGB.Colors.Unavailable = openrgb.Color{Red: byte(want >> 16), Green: byte(want >> 8), Blue: byte(want)}
-	r.d.eventProcessMutex.Unlock()
-	f := r.srv.waitFrame(from, func(f *orgbFrame) bool {
-		return len(f.Colors) == r.nLeds+1 && f.Colors[r.nLeds] == want
-	}, timeout)
-	if f == nil {
-		return nil, float64(time.Since(t0).Microseconds()) / 1000
+	if !r.noStamp {
+		r.gen++
+		want := r.stampColor()
+		// frames received before the stamp is set are stale; later ones are told apart by the stamp (a stale frame still
+		// in flight carries the previous generation)
+		from, _, _, _ := r.srv.snapshot()
+		r.d.eventProcessMutex.Lock()
+		r.d.config.OpenRGB.Colors.Unavailable = openrgb.Color{Red: byte(want >> 16), Green: byte(want >> 8), Blue: byte(want)}
+		r.d.eventProcessMutex.Unlock()
+		st := 800 * time.Millisecond
+		if timeout < st {
+			st = timeout
+		}
+		f := r.srv.waitFrame(from, func(f *orgbFrame) bool {
+			return len(f.Colors) == r.nLeds+1 && f.Colors[r.nLeds] == want
+		}, st)
+		if f != nil {
+			return append([]int{}, f.Colors[:r.nLeds]...), float64(time.Since(t0).Microseconds()) / 1000
+		}
+		if n, _, _, _ := r.srv.snapshot(); n == from {
+			return nil, float64(time.Since(t0).Microseconds()) / 1000 // no frames at all: not a stamping problem
+		}
+		r.noStamp = true
+		r.d.eventProcessMutex.Lock()
+		r.d.config.OpenRGB.Colors.Unavailable = r.base
+		r.d.eventProcessMutex.Unlock()
 	}
-	return append([]int{}, f.Colors[:r.nLeds]...), float64(time.Since(t0).Microseconds()) / 1000
+	from, _, _, _ := r.srv.snapshot()
+	deadline := t0.Add(timeout)
+	var prev *orgbFrame
+	for {
+		left := time.Until(deadline)
+		if left <= 0 {
+			return nil, float64(time.Since(t0).Microseconds()) / 1000
+		}
+		f := r.srv.waitFrame(from, func(f *orgbFrame) bool {
+			return len(f.Colors) == r.nLeds+1 && f.At.Sub(t0) >= 12*time.Millisecond
+		}, left)
+		if f == nil {
+			return nil, float64(time.Since(t0).Microseconds()) / 1000
+		}
+		from = f.Seq
+		if prev != nil {
+			same := true
+			for i := 0; i < r.nLeds; i++ {
+				if prev.Colors[i] != f.Colors[i] {
+					same = false
+					break
+				}
+			}
+			if same {
+				return append([]int{}, f.Colors[:r.nLeds]...), float64(time.Since(t0).Microseconds()) / 1000
+			}
+		}
+		prev = f
+	}
 }
 
 func runLedCase(c jLedCase) (res jLedResult) {
@@ -348,6 +397,7 @@ func runLedCase(c jLedCase) (res jLedResult) {
 	}()
 	rig := &ledRig{d: &d, srv: srv, base: cfg.OpenRGB.Colors.Unavailable, nLeds: len(c.Leds)}
 	finish := func() {
+		res.NoStamp = rig.noStamp
 		close(in)
 		tc := time.Now()
 		select {
